@@ -168,7 +168,7 @@ View == <<abs, alg>>
 
 (* ======================= what TLC checks ================================== *)
 (* the tuple is the tuple of the concatenated data *)
-TupleIsData == \A o \in O : abs[o] = TupleOf(ghost[o])
+TupleIsData == \A o \in O : abs[o] = TupleOfData(ghost[o])
 
 (* the closed forms over the tuple are the definitional statistics of the data *)
 ClosedFormsAreDefinitions ==
@@ -213,7 +213,7 @@ WeightedLaws ==
   \A o \in O :
     LET t == abs[o]  a == alg[o]  D == NonZero(ghost[o])  nonconst == t.n >= 2 /\ A2(t).s > 0 IN
     /\ t.n >= 1 => QEq(AMean(a), XMean(t))                       \* exact weighted mean
-    /\ abs[o] = TupleOf(D)                                        \* zero-weight samples are ignored
+    /\ abs[o] = TupleOfData(D)                                        \* zero-weight samples are ignored
     /\ AllUnit(D) =>                                              \* all weights one: the plain summary
          /\ t.n >= 2 => QEq(AVar(a), XVar(t))
          /\ (t.n >= 3 /\ nonconst) => ASkewSign(a) = XSkewSign(t) /\ QEq(ASkew2(a), XSkew2(t))
